@@ -44,7 +44,11 @@ type c36S3 struct {
 	faultHits int
 }
 
-func (s *c36S3) SetFault(key, mode string) { s.mu.Lock(); s.faultKey, s.faultMode, s.faultHits = key, mode, 0; s.mu.Unlock() }
+func (s *c36S3) SetFault(key, mode string) {
+	s.mu.Lock()
+	s.faultKey, s.faultMode, s.faultHits = key, mode, 0
+	s.mu.Unlock()
+}
 
 func (s *c36S3) ClearFault() int {
 	s.mu.Lock()
@@ -121,7 +125,11 @@ func (s *c36S3) Since(mark int) []c36Op {
 
 func (s *c36S3) ResetLog() { s.mu.Lock(); s.ops = s.ops[:0]; s.mu.Unlock() }
 
-func (s *c36S3) Bad() []string { s.mu.Lock(); defer s.mu.Unlock(); return append([]string(nil), s.bad...) }
+func (s *c36S3) Bad() []string {
+	s.mu.Lock()
+	defer s.mu.Unlock()
+	return append([]string(nil), s.bad...)
+}
 
 type c36ListResult struct {
 	XMLName               xml.Name     `xml:"ListBucketResult"`
